@@ -131,7 +131,7 @@ def plus_stub(a, m):
     return mk
 
 
-LOOP_INV = ('__CPROVER_assigns(IT_FIELDS(in), g_turn, g_pos, g_done, g_iter, g_last, g_called[0], g_ok[0], g_len[0], g_ncalls[0], g_ae[0], g_re[0], g_lp[0], vf_exc, vf_exc_counter, g_exc_obj, g_exc_type)\n'
+LOOP_INV = ('__CPROVER_assigns(IT_FIELDS(in), g_turn, g_pos, g_done, g_iter, g_last, g_called[0], g_ok[0], g_len[0], g_ncalls[0], g_ae[0], g_re[0], g_lp[0], g_cur, vf_exc, vf_exc_counter, g_exc_obj, g_exc_type)\n'
             '__CPROVER_loop_invariant(VALID_STUB(in) && EXC_OK && g_done == 0 && g_turn == 0 && OFF(CUR(in)) == g_pos'
             ' && IN_END(in) == __CPROVER_loop_entry(IN_END(in)) && IN_BEGIN(in) == __CPROVER_loop_entry(IN_BEGIN(in))'
             ' && OFF(CUR(in)) >= OFF(__CPROVER_loop_entry(CUR(in))) %s)')
